@@ -18,7 +18,7 @@ CONSTANTS
   ReqVers = {"t2", "d1"}
   InstNames = {"def", "custom"}
   InstVers = {"t1", "d2"}
-  Req2s = {FALSE}
+  Req2s = {FALSE, TRUE}
   Defs = {"absent", "edited"}
   Storeds = {"cur", "old"}
 VIEW view
